@@ -100,12 +100,20 @@ pub fn strategy(max_events_per_thread: usize) -> impl Strategy<Value = E2eCase> 
       loggers_strategy(n_app as u8),
       prop::collection::vec(prop::collection::vec(ev, 0..max_events_per_thread), 1..=4),
       prop::option::weighted(0.45, 0u16..1000),
-      prop::bool::weighted(0.45),
+      prop::bool::weighted(0.42),
       // "shutdown at any moment": the ways a session ends — the ordinary one first (shrink target)
-      prop_oneof![5 => Just(How::Plain), 2 => Just(How::OtherThread), 3 => Just(How::Unwind), 2 => Just(How::UnwindThread)],
+      prop_oneof![4 => Just(How::Plain), 2 => Just(How::OtherThread), 3 => Just(How::Unwind), 3 => Just(How::UnwindThread)],
       prop::bool::weighted(0.3),
     )
       .prop_map(|(mut appenders, loggers, threads, shutdown_permille, via_drop, how, exit_after)| {
+        // only a guard can be dropped by unwinding; for shutdown() the choice is the thread.
+        // (Drop waits 5 s for the writers, shutdown() here 20 s: the share of drops is kept
+        // moderate so that a starved machine does not turn many cases inconclusive.)
+        let how = match (via_drop, how) {
+          (false, How::Unwind) => How::Plain,
+          (false, How::UnwindThread) => How::OtherThread,
+          (_, h) => h,
+        };
         // at most one console appender (there is one stdout)
         let mut seen_console = false;
         for a in appenders.iter_mut() {
@@ -366,7 +374,18 @@ pub fn mode_of(c: &E2eCase) -> String {
 fn execute_in(c: &E2eCase, dir: &Path) -> Result<CaseReport, Failure> {
   let c = &normalise(c.clone());
   let t0 = Instant::now();
-  let r = run_case(c, dir);
+  let mut r = run_case(c, dir);
+  if matches!(&r, Ok(rep) if rep.inconclusive > 0 && rep.classes.iter().any(|k| k == "e2e/shutdown_deadline_hit")) {
+    // the library gave up on a writer at its deadline (5 s for Drop): on a starved machine that is
+    // a scheduling stall.  The same case is run once more in a fresh directory; whatever that run
+    // shows is the verdict for this scenario (a second stall stays inconclusive).
+    let rdir = dir.join("retry");
+    std::fs::create_dir_all(&rdir).map_err(|e| Failure::new("INFRA", "tempdir", e.to_string()))?;
+    r = run_case(c, &rdir);
+    if let Ok(rep) = &mut r {
+      rep.class("e2e/retried_after_shutdown_deadline_hit");
+    }
+  }
   if std::env::var("VERIF_E2E_TIMING").is_ok() {
     // development aid: where the wall time of the child-process engine goes
     eprintln!("e2e-timing {:6} ms {} events={} {}", t0.elapsed().as_millis(), mode_of(c), total_events(c), c.appenders.iter().map(|a| kind_tag(&a.kind)).collect::<Vec<_>>().join("+"));
@@ -390,6 +409,11 @@ fn execute_in(c: &E2eCase, dir: &Path) -> Result<CaseReport, Failure> {
   match run_case(&ctl, &cdir) {
     Err(cf) if cf.property == P && strip(&cf.signature, &mode_of(&ctl)) == strip(&f.signature, &mode_of(c)) => Err(Failure::new(P, cf.signature.clone(), format!("{} [first seen under teardown {}; the ordinary-teardown control of the same case fails the same clause]", cf.message, mode_of(c)))),
     Err(cf) if cf.property == "INFRA" => Err(cf),
+    // the control stalled (child time limit, shutdown deadline): no difference to rest a verdict on
+    Ok(mut rep) if rep.inconclusive > 0 => {
+      rep.class("e2e/control_inconclusive");
+      Ok(rep)
+    }
     _ => Err(Failure::new(P, f.signature.clone(), format!("{} [control: the same case ended by an ordinary {} passes this clause]", f.message, mode_of(&ctl)))),
   }
 }
@@ -426,6 +450,8 @@ fn run_case(c: &E2eCase, dir: &Path) -> Result<CaseReport, Failure> {
       // a hang is never a violation
       rep.inconclusive = 1;
       rep.class("e2e/child_timeout");
+      rep.class(format!("e2e/child_timeout/{mode}"));
+      eprintln!("[C19] inconclusive: child exceeded its time limit (teardown {mode}, {total} events)");
       return Ok(rep);
     }
     ChildOutcome::Crashed(m) => return Err(Failure::new(P, format!("e2e/child_crashed/{mode}"), format!("{m}\nconfig:\n{yaml}"))),
@@ -441,6 +467,8 @@ fn run_case(c: &E2eCase, dir: &Path) -> Result<CaseReport, Failure> {
     // abandoned a writer thread, as documented: a stall, not a routing/delivery verdict
     rep.inconclusive = 1;
     rep.class("e2e/shutdown_deadline_hit");
+    rep.class(format!("e2e/shutdown_deadline_hit/{mode}"));
+    eprintln!("[C19] inconclusive: the library abandoned an appender task at its shutdown deadline (teardown {mode}, {total} events){lib_said}");
     return Ok(rep);
   }
   if let Some(e) = &res.init_error {
